@@ -5,8 +5,9 @@
    external crate minimum_redundancy (hypothesis [optimal]); it is validated per generated
    input by the correspondence run.  Statements only, closed by [exact].
    Axioms: only the standard library's Reals axioms (see Print Assumptions). *)
-From Coq Require Import Reals List Arith.
-From QwtModel Require Import Entropy.
+From Coq Require Import Reals List Arith NArith.
+From QwtModel Require Import ListX Consts QVec RSQ Huff Codes RSQBuild Entropy LevelBitsP.
+From QwtModel Require HQWTP BinWTP.
 Import ListNotations.
 
 Theorem C15_quad_entropy_bound : forall fs ls,
@@ -41,3 +42,82 @@ Print Assumptions C15_shannon_cost_quad.
 Theorem C15_example : optimal 4 [5;2;1;1]%nat [1;1;1;1]%nat.
 Proof. exact ex_optimal. Qed.
 Print Assumptions C15_example.
+
+(* ---- the link to the tree model (Proofs/LevelBitsP.v) ----
+   The symbols the Huffman-shaped quad tree stores over all its levels (h_lens, each level an
+   RSQVector of exactly that many 2-bit symbols) are exactly sum_c f_c * len_c with f_c the
+   number of occurrences of c and len_c its code length in 2-bit fragments: no padding, no
+   duplicated level, nothing stored for a finished code. *)
+Theorem C15_hq_level_symbols : forall w bsize seq tab t, HQWTP.width_ok w -> (bsize = 256 \/ bsize = 512) ->
+  Forall (fun x => x < 2 ^ w)%N seq -> (len seq < RSQ_MAXN)%N -> HQWTP.table_ok seq tab ->
+  hq_build bsize seq tab = Val t ->
+  let syms := nodup N.eq_dec seq in
+  let fs := map (fun c => N.to_nat (countN c seq)) syms in
+  let ls := map (code_clen 2 tab) syms in
+  sumN (h_lens t) = N.of_nat (cost fs ls).
+Proof. exact hq_level_symbols_cost. Qed.
+Print Assumptions C15_hq_level_symbols.
+
+Theorem C15_hq_level_lens : forall w bsize seq tab t, HQWTP.width_ok w -> (bsize = 256 \/ bsize = 512) ->
+  Forall (fun x => x < 2 ^ w)%N seq -> (len seq < RSQ_MAXN)%N -> HQWTP.table_ok seq tab ->
+  hq_build bsize seq tab = Val t -> Forall2 (fun r n => rsq_len r = n) (h_qvs t) (h_lens t).
+Proof. exact hq_level_lens. Qed.
+Print Assumptions C15_hq_level_lens.
+
+(* binary Huffman tree: the bits stored over all levels *)
+Theorem C15_hwt_level_bits : forall w seq tab t, BinWTP.width_ok w -> Forall (fun x => x < 2 ^ w)%N seq ->
+  (len seq < RSQ_MAXN)%N -> BinWTP.table_ok2 seq tab -> wt_build w true seq tab = Val t ->
+  let syms := nodup N.eq_dec seq in
+  let fs := map (fun c => N.to_nat (countN c seq)) syms in
+  let ls := map (code_clen 1 tab) syms in
+  sumN (w_lens t) = N.of_nat (cost fs ls).
+Proof. exact hwt_level_bits_cost. Qed.
+Print Assumptions C15_hwt_level_bits.
+
+(* hence, for the tree the model builds, with the lengths of an optimal code
+   (the external coder's contract): level data <= n * (H0 + 2) bits (quad), n * (H0 + 1) (binary) *)
+Theorem C15_hq_tree_entropy : forall w bsize seq tab t, HQWTP.width_ok w -> (bsize = 256 \/ bsize = 512) ->
+  Forall (fun x => x < 2 ^ w)%N seq -> (len seq < RSQ_MAXN)%N -> HQWTP.table_ok seq tab ->
+  hq_build bsize seq tab = Val t -> seq <> [] ->
+  let syms := nodup N.eq_dec seq in
+  let fs := map (fun c => N.to_nat (countN c seq)) syms in
+  let ls := map (code_clen 2 tab) syms in
+  optimal 4 fs ls ->
+  (2 * INR (N.to_nat (sumN (h_lens t))) <= INR (N.to_nat (len seq)) * (H0 fs + 2))%R.
+Proof. exact hq_level_bits_entropy. Qed.
+Print Assumptions C15_hq_tree_entropy.
+
+Theorem C15_hwt_tree_entropy : forall w seq tab t, BinWTP.width_ok w -> Forall (fun x => x < 2 ^ w)%N seq ->
+  (len seq < RSQ_MAXN)%N -> BinWTP.table_ok2 seq tab -> wt_build w true seq tab = Val t -> seq <> [] ->
+  let syms := nodup N.eq_dec seq in
+  let fs := map (fun c => N.to_nat (countN c seq)) syms in
+  let ls := map (code_clen 1 tab) syms in
+  optimal 2 fs ls ->
+  (INR (N.to_nat (sumN (w_lens t))) <= INR (N.to_nat (len seq)) * (H0 fs + 1))%R.
+Proof. exact hwt_level_bits_entropy. Qed.
+Print Assumptions C15_hwt_tree_entropy.
+
+(* and never more level data than the plain tree with L levels (which stores n symbols per level:
+   C15_plain_levels) *)
+Theorem C15_hq_tree_never_more_than_plain : forall w bsize seq tab t L, HQWTP.width_ok w -> (bsize = 256 \/ bsize = 512) ->
+  Forall (fun x => x < 2 ^ w)%N seq -> (len seq < RSQ_MAXN)%N -> HQWTP.table_ok seq tab ->
+  hq_build bsize seq tab = Val t ->
+  let syms := nodup N.eq_dec seq in
+  let fs := map (fun c => N.to_nat (countN c seq)) syms in
+  let ls := map (code_clen 2 tab) syms in
+  (1 <= L)%nat -> (length syms <= 4 ^ L)%nat -> optimal 4 fs ls ->
+  (sumN (h_lens t) <= len seq * N.of_nat L)%N.
+Proof. exact hq_never_more_than_plain. Qed.
+Print Assumptions C15_hq_tree_never_more_than_plain.
+
+Theorem C15_plain_levels : forall w bsize seq t, QWTP.width_ok w -> (bsize = 256 \/ bsize = 512) ->
+  Forall (fun x => x < 2 ^ w)%N seq -> (len seq < RSQ_MAXN)%N -> QWT.qwt_new w bsize seq = Val t ->
+  Forall (fun r => rsq_len r = len seq) (QWT.q_qvs t) /\ (seq <> [] -> len (QWT.q_qvs t) = QWT.q_n_levels t) /\
+  sumN (map rsq_len (QWT.q_qvs t)) = (len seq * QWT.q_n_levels t)%N.
+Proof. exact qwt_plain_level_symbols. Qed.
+Print Assumptions C15_plain_levels.
+
+(* non-vacuity: a concrete crafted table, tree and optimal code meet all the hypotheses *)
+Theorem C15_tree_example : lb_ex_check 256 = true /\ lb_ex_check 512 = true.
+Proof. exact (conj lb_example_256 lb_example_512). Qed.
+Print Assumptions C15_tree_example.
